@@ -263,6 +263,9 @@ func (runInfo *runInfoStruct) invokeDerefExpr(expr *ast.DerefExpr) {
 	if runInfo.err != nil {
 		return
 	}
+	if runInfo.rv.Kind() == reflect.Interface && !runInfo.rv.IsNil() {
+		runInfo.rv = runInfo.rv.Elem()
+	}
 
 	if runInfo.rv.Kind() != reflect.Ptr {
 		runInfo.err = newStringError(expr.Expr, "cannot deference non-pointer")
@@ -294,6 +297,9 @@ func (runInfo *runInfoStruct) invokeUnaryExpr(expr *ast.UnaryExpr) {
 	runInfo.invokeExpr()
 	if runInfo.err != nil {
 		return
+	}
+	if runInfo.rv.Kind() == reflect.Interface && !runInfo.rv.IsNil() {
+		runInfo.rv = runInfo.rv.Elem()
 	}
 
 	switch expr.Operator {
@@ -739,6 +745,9 @@ func (runInfo *runInfoStruct) invokeMakeTypeExpr(expr *ast.MakeTypeExpr) {
 	if runInfo.err != nil {
 		return
 	}
+	if runInfo.rv.Kind() == reflect.Interface && !runInfo.rv.IsNil() {
+		runInfo.rv = runInfo.rv.Elem()
+	}
 
 	// if expr.Name has a dot in it, it should give a syntax error, so no needs to check err
 	runInfo.env.DefineReflectType(expr.Name, runInfo.rv.Type())
@@ -861,6 +870,9 @@ func (runInfo *runInfoStruct) invokeIncludeExpr(expr *ast.IncludeExpr) {
 	runInfo.invokeExpr()
 	if runInfo.err != nil {
 		return
+	}
+	if runInfo.rv.Kind() == reflect.Interface && !runInfo.rv.IsNil() {
+		runInfo.rv = runInfo.rv.Elem()
 	}
 
 	if runInfo.rv.Kind() != reflect.Slice && runInfo.rv.Kind() != reflect.Array {
